@@ -1,6 +1,7 @@
 //! mlv — correspondence harness between the Coq model (/verif/coq) and the crate in /repo.
 mod c03;
 mod c05n;
+mod c02;
 mod c07;
 mod c18;
 mod c08;
@@ -141,6 +142,10 @@ fn main() {
         "c07" => {
             let o = c07::generate(seed, scale);
             o.write(&out, "c07", "From MLV Require Import model.Bytes model.Id model.Node model.Check11 model.IterQuery model.Check07.", "c07case", "run07", shards);
+        }
+        "c02" => {
+            let o = c02::generate(seed, scale);
+            o.write(&out, "c02", "From MLV Require Import model.Bytes model.Server model.Validate model.Check02.", "c02case", "run02", shards);
         }
         "c18" => {
             let o = c18::generate(seed, scale);
